@@ -54,7 +54,7 @@ pub fn cases(f: &mut dyn FnMut(Value) -> bool) {
             ("num_rows", false) => "1".into(),
             ("num_rows", true) => "2".into(),
             ("data", false) => "[10,11]".into(),
-            ("data", true) => "[20,21]".into(),
+            ("data", true) => "[20,21,22]".into(),   // a repeated `data` key of a DIFFERENT length
             (_, _) => "7".into(),
         }
     };
